@@ -104,6 +104,9 @@ fn domain(v0: TypeVariable, v1: TypeVariable) -> Vec<TE> {
     for (a, b) in [(v0, v1), (v1, v0), (v0, v0), (v1, v1)] { dom.push(TE::mapping(a, b)); }
     for a in [v0, v1] { dom.push(TE::dyn_array(a)); }
     for (a, n) in [(v0, 2u8), (v1, 2), (v0, 3)] { dom.push(TE::FixedArray { element: a, length: U256::from(n) }); }
+    // lengths that agree modulo 2^64 but differ as 256-bit numbers
+    dom.push(TE::FixedArray { element: v1, length: (U256::ONE << 64u32) + U256::from(2u8) });
+    dom.push(TE::FixedArray { element: v0, length: U256::ONE << 255u32 });
     dom.push(TE::conflict(TE::Bytes, TE::bool(), "seed"));
     dom
 }
